@@ -171,9 +171,11 @@ def record_registration(argv, profile_path, tmp):
 
 def e2e_oracle(case, rec, reg_names, sites, prof_flags):
     """returns (classifier, desc) or None. `prof_flags`: flag per site index of the profile in force."""
-    line2idx = {}
+    # a call whose callback is chosen under a condition yields several sites with one line: map by (name, line)
+    line2idx, nl2idx = {}, {}
     for i, s in enumerate(sites):
         line2idx.setdefault(s["line"], i)
+        nl2idx.setdefault((s["name"], s["line"]), i)
     accepted = [n for (n, _, ok) in rec if ok]
     if reg_names != accepted:
         return ("registration-lost", f"processor holds {reg_names} but accepted registrations were {accepted}")
@@ -181,7 +183,7 @@ def e2e_oracle(case, rec, reg_names, sites, prof_flags):
     for (n, ln, ok) in rec:
         if ln not in line2idx:
             return None  # translator cross-check reports this separately
-        i = line2idx[ln]
+        i = nl2idx.get((n, ln), line2idx[ln])
         if i in seen:
             return ("registration-duplicate", f"site {i} ({n}) registered twice")
         seen.add(i)
@@ -299,7 +301,8 @@ def run(ctx: Ctx):
                     ctx.count("cli_rejected")
                     continue
                 line2idx = {s["line"]: i for i, s in reversed(list(enumerate(sites)))}
-                idxs = [line2idx.get(ln) for (_, ln, _) in rec]
+                nl2idx = {(s["name"], s["line"]): i for i, s in reversed(list(enumerate(sites)))}
+                idxs = [nl2idx.get((n, ln), line2idx.get(ln)) for (n, ln, _) in rec]
                 # translator cross-check: the recorded call sequence is a source-ordered selection of the
                 # translated sites that contains every unconditional one
                 ok_tr = None not in idxs and idxs == sorted(set(idxs)) and \
